@@ -59,7 +59,7 @@ void flockfile(FILE *f) { }
 void funlockfile(FILE *f) { }
 char *strerror(int e) { return "error"; }
 void setbuf(FILE *f, char *b) { }
-int isatty(int fd) { int r; return r != 0; }
+int isatty(int fd) { int r; if (g_opts_harness) return 0; return r != 0; }   /* C22 harness: stdin/stdout are not terminals (stated assumption) */
 int printf(const char *fmt, ...) { int r; return r; }
 int fclose(FILE *f) { int r; return r; }
 void _exit(int st) { g_exit_status = st; if (st == 4) __CPROVER_assert(0, "CANARY exit status 4"); if (st == 0) __CPROVER_assert(0, "CANARY exit status 0"); __CPROVER_assert(INV_J && opathn == 0, "_exit: no partial output file is left"); __CPROVER_assert(st == (warned ? 4 : 0), "normal exit status is 4 iff some operand was skipped with a warning, else 0"); __CPROVER_assume(0); }
@@ -69,9 +69,12 @@ void _exit(int st) { g_exit_status = st; if (st == 4) __CPROVER_assert(0, "CANAR
 #endif
 /* string functions: plain loops (bounded by NAME_MAX_LEN + suffix) */
 size_t strlen(const char *s) { size_t n = 0; while (s[n]) n++; return n; }
-int strcmp(const char *a, const char *b) { size_t i = 0; while (a[i] && a[i] == b[i]) i++; return (int)(unsigned char)a[i] - (int)(unsigned char)b[i]; }
+int strcmp(const char *a, const char *b) { size_t i = 0; unsigned char ca, cb; for (;;) { ca = (unsigned char)a[i]; cb = (unsigned char)b[i]; if (!(ca && ca == cb)) break; i++; } return (int)ca - (int)cb; }
 void *memcpy(void *d, const void *s, size_t n) { char *dd = d; const char *ss = s; for (size_t i = 0; i < n; i++) dd[i] = ss[i]; return d; }
 char *strcpy(char *d, const char *s) { size_t i = 0; while ((d[i] = s[i])) i++; return d; }
+/* -n/-m arguments are outside the C22 token menu: number parsing must be unreachable there (asserted), which also keeps symbolic
+   execution from unrolling the library model on that path */
+long strtol(const char *s, char **e, int b) { long r; __CPROVER_assert(0, "no token of the C22 menu reaches number parsing"); __CPROVER_assume(0); return r; }
 char *strrchr(const char *s, int c) { const char *r = 0; for (;; s++) { if (*s == (char)c) r = s; if (!*s) break; } return (char *)r; }
 
 /* ---- file system calls */
@@ -396,15 +399,15 @@ void h_reporters(void)
 enum { E_D = 1, E_Z = 2, E_C = 4, E_T = 8, E_K = 16, E_F = 32, E_U = 64, E_LVL = 128, E_STOP = 256, E_OPERAND = 512, E_NOP = 1024, E_V = 2048 };
 struct tok { const char *s; int eff; int eff2; int lvl; };
 static const struct tok MENU[] = {
-#if !defined(OPTS_MENU) || OPTS_MENU == 0
+  /* 0..16: short options and clusters */
   { "-d", E_D, 0, 0 }, { "-z", E_Z, 0, 0 }, { "-c", E_C, 0, 0 }, { "-t", E_T, 0, 0 }, { "-k", E_K, 0, 0 }, { "-f", E_F, 0, 0 },
   { "-u", E_U, 0, 0 }, { "-1", E_LVL, 0, 1 }, { "-5", E_LVL, 0, 5 }, { "-9", E_LVL, 0, 9 }, { "-q", E_NOP, 0, 0 }, { "-s", E_NOP, 0, 0 }, { "-v", E_V, 0, 0 },
   { "-dc", E_D, E_C, 0 }, { "-zk", E_Z, E_K, 0 }, { "-td", E_T, E_D, 0 }, { "-cz", E_C, E_Z, 0 },
-#else
+  /* 17..31: long options */
   { "--decompress", E_D, 0, 0 }, { "--compress", E_Z, 0, 0 }, { "--stdout", E_C, 0, 0 }, { "--test", E_T, 0, 0 }, { "--keep", E_K, 0, 0 },
   { "--force", E_F, 0, 0 }, { "--sequential", E_U, 0, 0 }, { "--fast", E_LVL, 0, 1 }, { "--best", E_LVL, 0, 9 }, { "--small", E_NOP, 0, 0 },
   { "--quiet", E_NOP, 0, 0 }, { "--repetitive-fast", E_NOP, 0, 0 }, { "--repetitive-best", E_NOP, 0, 0 }, { "--exponential", E_NOP, 0, 0 }, { "--verbose", E_V, 0, 0 },
-#endif
+  /* 32..34 */
   { "--", E_STOP, 0, 0 }, { "file", E_OPERAND, 0, 0 }, { "x.bz2", E_OPERAND, 0, 0 },
 };
 #define NMENU (sizeof MENU / sizeof MENU[0])
@@ -448,19 +451,37 @@ char *strtok(char *s, const char *sep)
   return 0;
 }
 
+#ifndef OPT_E0     /* default tuple when built by hand */
+#define OPT_E0 0
+#define OPT_E1 2
+#define OPT_E2 3
+#define OPT_A1 1
+#define OPT_A2 33
+#endif
 void h_opts_setup(void)
 {
+  /* One instance = one concrete 5-tuple of tokens (LBZIP2, BZIP2, BZIP, argv[1], argv[2]) from the documented spellings;
+     which of the five are present, and the invocation name, are symbolic (all 32 sub-selections x 7 names per instance).
+     Concrete token text lets symbolic execution fold the option-name comparisons. */
   V_IN(unsigned, pn);
-  V_IN(int, e0);
-  V_IN(int, e1);
-  V_IN(int, e2);
-  V_IN(int, a1);
-  V_IN(int, a2);
-  V_ASSUME(pn < 7 && e0 >= -1 && e0 < (int)NMENU && e1 >= -1 && e1 < (int)NMENU && e2 >= -1 && e2 < (int)NMENU && a1 >= -1 && a1 < (int)NMENU && a2 >= -1 && a2 < (int)NMENU);
-  V_ASSUME(a1 >= 0 || a2 < 0);
+  V_IN(unsigned, present);
+  V_ASSUME(pn < 7 && present < 32);
+#ifdef OPT_PRESENT          /* instance with a fixed selection (cheap: the whole argument list is concrete, the invocation name stays symbolic) */
+  V_ASSUME(present == (OPT_PRESENT));
+#endif
+  int e0 = (present & 1) ? OPT_E0 : -1, e1 = (present & 2) ? OPT_E1 : -1, e2 = (present & 4) ? OPT_E2 : -1;
+  int a1 = (present & 8) ? OPT_A1 : -1, a2 = (present & 16) ? OPT_A2 : -1;
+  if (a1 < 0) { a1 = a2; a2 = -1; }
   /* program state as at process start */
   decompress = 0; outmode = OM_REGF; bs100k = 9; force = 0; keep = 0; ultra = 0; small = 0; verbose = 0; num_worker = 0; warned = 0;
-  pname = PNAMES[pn];
+#ifdef OPT_SYMSTATE         /* transition instance: ONE token applied to EVERY prior option state (what earlier tokens may have left), neutral invocation name */
+  V_IN(int, d0); V_IN(int, om0); V_IN(unsigned, l0); V_IN(int, f0); V_IN(int, k0); V_IN(int, u0);
+  V_ASSUME(pn == 6 && (d0 == 0 || d0 == 1) && (om0 == OM_STDOUT || om0 == OM_DISCARD || om0 == OM_REGF) && l0 >= 1 && l0 <= 9 && (f0 == 0 || f0 == 1) && (k0 == 0 || k0 == 1) && (u0 == 0 || u0 == 1));
+  V_ASSUME(om0 != OM_DISCARD || d0 == 1);          /* reachable prior states: -t always comes with decompression unless a later -z cancelled -t as well */
+  decompress = d0; outmode = om0; bs100k = l0; force = f0; keep = k0; ultra = u0;
+#endif
+  switch (pn) { case 0: pname = PNAMES[0]; break; case 1: pname = PNAMES[1]; break; case 2: pname = PNAMES[2]; break; case 3: pname = PNAMES[3]; break;
+    case 4: pname = PNAMES[4]; break; case 5: pname = PNAMES[5]; break; default: pname = PNAMES[6]; break; }
   g_env_val[0] = e0 >= 0 ? MENU[e0].s : 0; g_env_val[1] = e1 >= 0 ? MENU[e1].s : 0; g_env_val[2] = e2 >= 0 ? MENU[e2].s : 0;
   char a0[4] = "prg";
   char *argv[4]; size_t argc = 1;
@@ -471,6 +492,9 @@ void h_opts_setup(void)
   /* documented model: invocation name, then LBZIP2, BZIP2, BZIP tokens, then the command line */
   struct model m; memset(&m, 0, sizeof m);
   m.outmode = OM_REGF; m.lvl = 9;
+#ifdef OPT_SYMSTATE
+  m.decompress = d0; m.outmode = om0; m.lvl = l0; m.force = f0; m.keep = k0; m.ultra = u0;
+#endif
   if (pn == 2 || pn == 3) m.decompress = 1;
   if (pn == 4 || pn == 5) { m.decompress = 1; m.outmode = OM_STDOUT; }
   if (e0 >= 0) model_token(&m, &MENU[e0]);
@@ -481,6 +505,9 @@ void h_opts_setup(void)
   if (!m.conflict && m.outmode == OM_REGF && m.nop == 0) m.outmode = OM_STDOUT;   /* no operands: filter */
   g_opts_expect_fail = m.conflict; g_opts_harness = 1;
   struct arg *ops;
+#ifdef OPT_PRESENT
+  V_CANARY("opts_setup called");      /* a fixed selection may legitimately end in the -c/-t conflict exit, so reachability is shown before the call */
+#endif
   opts_setup(&ops, argc, argv);
   V_ASSERT(!m.conflict, "opts_setup returns only when the documented rules accept the option combination");
   V_ASSERT(decompress == m.decompress, "mode: invocation name, then -d/-z/-t in order, last wins");
@@ -489,6 +516,7 @@ void h_opts_setup(void)
   int i = 0; struct arg *p = ops; int same = 1;
   for (; i < m.nop; i++) { if (!p || p->val == 0 || strcmp(p->val, m.operands[i]) != 0) { same = 0; break; } p = p->next; }
   V_ASSERT(same && p == 0, "operands: exactly the non-option tokens, in order (environment tokens first)");
-  if (e1 >= 0 && e2 >= 0 && decompress) V_CANARY("two env vars");
-  if (m.nop == 2) V_CANARY("two operands");
+#ifndef OPT_PRESENT
+  V_CANARY("opts_setup returns");
+#endif
 }
